@@ -62,6 +62,12 @@ def plan(tier, seed):
     for kind in ("positive", "complex", "mixed"):
         for k in (1, 2):
             items.append(dict(layer="all-bernoulli", kind=kind, k=k))
+        cons = []
+        for sched in (False, True):
+            for lr, lr2 in ((0.1, 0.05), (0.05, 0.3), (1.0, 0.1)):
+                for N, pb, nb in ((2, 1, None), (3, 2, 1)):
+                    cons.append(dict(kind=kind, N=N, pb=pb, nb=nb, k=1, lr=lr, lr2=lr2, sched=sched, epochs=2, script=0))
+        items.append(dict(layer="consecutive", configs=cons))
     return items
 
 
@@ -120,11 +126,13 @@ def reference_update(kind, n, before_named, pos, neg_end, bases_rows, eps):
     return exp
 
 
-def run_fit(cfg, tape, acc, bern="script"):
+def run_fit(cfg, tape, acc, bern="script", st=None, shared=None):
     kind, N, pb, nb, k, lr, ep = cfg["kind"], cfg["N"], cfg["pb"], cfg["nb"], cfg["k"], cfg["lr"], cfg["epochs"]
     n = cfg.get("n", 2)
     L = lib()
-    if n == 1:
+    if st is not None:
+        pass
+    elif n == 1:
         st, arch, params = F.fresh_state(kind, 1, arch=[1, 1] if kind != "mixed" else [1, 1, 1])
     else:
         st, arch, params = F.fresh_state(kind, n)
@@ -148,7 +156,9 @@ def run_fit(cfg, tape, acc, bern="script"):
         dec.small = True
     kw = dict(input_bases=bases) if with_bases else {}
     if cfg["sched"]:
-        kw.update(scheduler=F.make_counting_steplr(counter), scheduler_args=dict(step_size=1, gamma=0.5))
+        kw.update(scheduler=F.make_counting_steplr(counter), scheduler_args=dict(step_size=1, gamma=0.5) if shared is None else shared["scheduler_args"])
+    if shared is not None:
+        kw["optimizer_args"] = shared["optimizer_args"]
     out = []
     try:
         with Owned(dec):
@@ -225,8 +235,43 @@ def explore(acc, cfg, bern="script"):
     acc.choice_points += stats.choice_points
 
 
+def run_two_fits(cfg, tape, acc):
+    """non-initial states: two consecutive fit() calls on the SAME model sharing the caller's
+    optimizer_args / scheduler_args dict objects, with different learning rates"""
+    st, arch, params = F.fresh_state(cfg["kind"], 2)
+    shared = dict(optimizer_args={}, scheduler_args=dict(step_size=1, gamma=0.5))
+    v1, s1 = run_fit(dict(cfg, lr=cfg["lr"]), tape, acc, st=st, shared=shared)
+    if v1:
+        return v1, s1
+    for nm in ("compute_batch_gradients",):
+        if nm in st.__dict__:
+            del st.__dict__[nm]
+    if "gibbs_steps" in st.rbm_am.__dict__:
+        del st.rbm_am.__dict__["gibbs_steps"]
+    v2, s2 = run_fit(dict(cfg, lr=cfg["lr2"]), tape, acc, st=st, shared=shared)
+    return [(sig + ":second-fit-with-shared-argument-dicts", d) for sig, d in v2], s1 + s2
+
+
 def run_item(item):
     acc = Acc()
+    if item["layer"] == "consecutive":
+        sigs = set()
+        for cfg in item["configs"]:
+            stats = T.Stats()
+            with RngGuard("observe"):
+                for tp, (viols, steps) in T.explore(lambda t: run_two_fits(cfg, t, acc), bound=0, stats=stats):
+                    acc.ev(max(steps, 1))
+                    acc.outcome(sha(["consecutive", cfg["kind"], cfg["lr"], cfg["lr2"], cfg["sched"]]))
+                    for sig, detail in viols:
+                        if sig not in sigs:
+                            sigs.add(sig)
+                            d = dict(detail or {})
+                            acc.viol(sig, dict(cfg, tape=tp.choices, layer="consecutive"), observed=d.pop("observed", None), expected=d.pop("expected", None), detail=d)
+            acc.states += stats.nodes
+            acc.traces += stats.executions
+        acc.transitions += acc.counters.get("steps", 0)
+        acc.sample(dict(item["configs"][0], layer="two consecutive fits sharing optimizer_args/scheduler_args"), cap=1)
+        return acc
     if item["layer"] == "fits":
         for cfg in item["configs"]:
             explore(acc, cfg)
@@ -242,6 +287,14 @@ def run_item(item):
 
 def replay(case):
     acc = Acc()
+    if case.get("layer") == "consecutive":
+        cfg = {k: case[k] for k in ("kind", "N", "pb", "nb", "k", "lr", "lr2", "sched", "epochs", "script")}
+        tp, (viols, steps) = T.replay(lambda t: run_two_fits(cfg, t, acc), case["tape"])
+        acc.ev(max(steps, 1))
+        for sig, detail in viols:
+            d = dict(detail or {})
+            acc.viol(sig, case, observed=d.pop("observed", None), expected=d.pop("expected", None), detail=d)
+        return acc
     cfg = {k: case[k] for k in ("kind", "N", "pb", "nb", "k", "lr", "sched", "epochs", "script") if k in case}
     if "n" in case:
         cfg["n"] = case["n"]
